@@ -1134,7 +1134,7 @@ void World::run() {
         if (!violations.empty() && !verbose) stop = true;
     }
     if (!plan.api_world && !stop) pump(now + plan.tail_ms);
-    st.sim_ms += now - plan.t0;
+    st.sim_ms += std::min<uint64_t>(now - plan.t0, 86400000ull); // per run capped at 24 h: boundary-sized clock jumps would otherwise dominate the total
     if (!stop || verbose) for (auto m : monitors) m->on_end(*this);
     log.u64(now);
 }
